@@ -219,8 +219,17 @@ func judgeC15(rep *lib.Report, c *lib.Ctx, ln *printerLine, res *realResult, hoo
 }
 
 // expectedHookCalls: the error operands the statement says the hook renders, in print order.
+// nilReceiverHookCalls: how many further invocations concern nil-receiver errors (they cannot be identified in the
+// hook's log; each invocation of the "plain" hook still writes its opening "H<")
+var nilReceiverHookCalls int
+
 func expectedHookCalls(ts []*lib.Term, entry string, verbs []int) []lib.CallRec {
-	var out []lib.CallRec
+	n, out := expectedHookCalls2(ts, entry, verbs)
+	_ = n
+	return out
+}
+
+func expectedHookCalls2(ts []*lib.Term, entry string, verbs []int) (nilCalls int, out []lib.CallRec) {
 	var walk func(t *lib.Term, verb int, inh string, ro bool, top bool)
 	walk = func(t *lib.Term, verb int, inh string, ro bool, top bool) {
 		switch t.K {
@@ -254,6 +263,9 @@ func expectedHookCalls(ts []*lib.Term, entry string, verbs []int) []lib.CallRec 
 					v = 'v'
 				}
 				out = append(out, lib.CallRec{M: "Hook", ID: t.ID, V: v})
+			}
+			if isErr && !sf && !sm && nilp {
+				nilCalls++
 			}
 			return
 		case "slice", "map", "tmap":
@@ -293,7 +305,7 @@ func expectedHookCalls(ts []*lib.Term, entry string, verbs []int) []lib.CallRec 
 			walk(t, verbs[i], "none", false, true)
 		}
 	}
-	return out
+	return nilCalls, out
 }
 
 // judgeC17: with a hook installed, exactly the error operands named by the statement go to the hook.
@@ -347,7 +359,29 @@ func judgeC17(rep *lib.Report, c *lib.Ctx, ln *printerLine, res *realResult, hoo
 		// operands as widths, re-order them or leave some MISSING / EXTRA are the errorf slice's subject (C15)
 		return
 	}
-	want := expectedHookCalls(ln.C.Ts, ln.C.E, verbs)
+	payloadErr := false // some method panics with an error VALUE: the report prints it through method dispatch, i.e. the hook
+	walkTerms(ln.C.Ts, func(t *lib.Term) {
+		for _, p := range t.Pan {
+			for _, cp := range p.Caps {
+				if cp == "ER" {
+					payloadErr = true
+				}
+			}
+		}
+	})
+	if payloadErr {
+		if hook == "plain" && !lib.HasKind(ln.C.Ts, "unsafe") && bytes.Contains(lib.Strip(res.Out), []byte("(PANIC=")) && !bytes.Contains(lib.Strip(res.Out), []byte(" method: H<")) {
+			rep.Violate("hook:panic-payload-bypasses-hook", fmt.Sprintf("%s: the error a method panicked with is reported without the hook: %q", desc, res.Out), kase)
+		}
+		return
+	}
+	nilCalls, want := expectedHookCalls2(ln.C.Ts, ln.C.E, verbs)
+	if hook == "plain" {
+		// every invocation of this hook writes "H<" first, also the ones for nil-receiver errors (which the log cannot name)
+		if got := bytes.Count(lib.Strip(res.Out), []byte("H<")); got != len(want)+nilCalls {
+			rep.Violate("hook:dispatch-count", fmt.Sprintf("%s: the hook's output appears %d times in %q, the statement names %d error operands (%d of them nil receivers)", desc, got, res.Out, len(want)+nilCalls, nilCalls), kase)
+		}
+	}
 	var got []lib.CallRec
 	for _, x := range res.Calls {
 		if x.M == "Hook" {
